@@ -126,11 +126,35 @@ def oracle_reuse(ck, b, s, J, shapes):
     return None
 
 
+def oracle_layouts(ck, b, s, J, x):
+    """the same batch handed over in every memory layout of the covering set: the round trip must not care"""
+    import torch
+    from pytorch_wavelets import DTCWTForward, DTCWTInverse
+    from ..impl_dwt import layout_views
+    fwd = DTCWTForward(biort=b, qshift=s, J=J).double(); inv = DTCWTInverse(biort=b, qshift=s).double()
+    H, W = x.shape[-2:]
+    for name, xt in layout_views(x):
+        desc = 'DTCWT PR %s/%s J=%d shape=%s, input given as: %s (strides %s)' % (b, s, J, tuple(x.shape), name, tuple(xt.stride()))
+        replay = {'oracle': 'layouts', 'b': b, 's': s, 'J': J, 'x': arr_json(x)}
+        try:
+            with torch.no_grad():
+                y = inv(fwd(xt))
+        except Exception as e:
+            ck.fail(desc + ': raises %s: %s' % (type(e).__name__, str(e)[:160]), replay); return 'raise'
+        if tuple(y.shape[-2:]) != (H + H % 2, W + W % 2) or float((y[..., :H, :W] - torch.tensor(x)).abs().max()) > 1e-9 * max(1.0, float(np.max(np.abs(x)))):
+            ck.fail(desc + ': does not reconstruct the input', replay); return 'diff'
+        ck.oracle_ok(('layout', name, b, s, J, tuple(x.shape)), group='layouts')
+    return None
+
+
 def oracle(ck, extended):
     rng = ck.rng
     q = ck.tier == 'quick'
     if not extended:
         rt.guard(ck, oracle_prq, ck)
+    for (shape, J) in [((2, 3, 8, 12), 2), ((3, 2, 7, 10), 2)]:
+        b_, s_ = rng.choice([(b, s) for b in OD.BIORTS for s in OD.QSHIFTS])
+        rt.guard(ck, oracle_layouts, ck, b_, s_, J, gen.float_tensor(ck.nprng, shape))
     pairs = [(b, s) for b in OD.BIORTS for s in OD.QSHIFTS]
     for (b, s) in (pairs if q else pairs * 6) * (2 if extended else 1):
         J = rng.randint(1, 3 if q else 5)
@@ -169,6 +193,8 @@ def replay(ck, path):
         oracle_prq(ck)
     elif f['oracle'] == 'reuse':
         oracle_reuse(ck, f['b'], f['s'], f['J'], [tuple(sh) for sh in f['shapes']])
+    elif f['oracle'] == 'layouts':
+        oracle_layouts(ck, f['b'], f['s'], f['J'], arr_from(f['x']))
     else:
         oracle_pr(ck, f['b'], f['s'], f['J'], arr_from(f['x']), f['o'], f['ri'])
     for fl in ck.failures:
